@@ -11,7 +11,7 @@
 
    base64 is a parameter (section variables); the extracted runner instantiates
    it with Model/Base64.v.  No proofs in this file. *)
-From Oras Require Import Base.Prelude Generated.GC18 Model.Utf8.
+From Oras Require Import Base.Prelude Generated.GC18 Model.Utf8 Model.Json.
 
 Definition colon : N := 58.
 Definition slash : N := 47.
@@ -160,6 +160,17 @@ Section Model.
     | Fresh a i r => cred_of_fields a i r [] []
     | Old _ VErr => RErrFormat
     | Old _ (VFields a i r u p) => cred_of_fields a i r u p
+    end.
+
+  (* the same at the level of BYTES: PutCredential keeps json.Marshal(authCfg) in the
+     cache (and saveFile writes it, re-indented); GetCredential json.Unmarshals it *)
+  Definition entry_bytes (c : cred) : str :=
+    render_fresh (encode_auth (c_user c) (c_pass c)) (c_refresh c) (c_access c).
+
+  Definition cred_of_bytes (raw : str) : result :=
+    match parse_fresh raw with
+    | Some (a, i, r) => cred_of_fields a i r [] []
+    | None => RErrFormat
     end.
 
   (* the legacy-key scan of GetCredential, in the iteration order given by the list *)
